@@ -100,6 +100,12 @@ CHECKS = {
         'an oracle checks every traversal entry point, treespec_dict, round trip and register_pytree_node.get(dict) against the current mode.',
    note=TB + 'The mode switch is process-wide and documented as not thread-safe; concurrency is out of scope here (C17).',
    design='§7 C13'),
+ 'C20': dict(
+   technique='Coq proof (split/concat list lemmas for all chunk lists incl. zero-size chunks; ravel/unravel inverse laws parametric in promotion and casts) + model correspondence of the bookkeeping + bit-exact oracle on numpy, jax, torch',
+   text='Theorems: splitting a concatenation at the cumulative sizes returns the chunks (zero-size included); index-based (numpy/jax) and size-based (torch) splitting agree; concat(split v) = v; unravel(ravel(leaves)) = leaves with the original shapes, dtypes and values, for a single dtype unconditionally and for mixed dtypes exactly under the cast round-trip hypothesis the property states; '
+        'wrong length is always rejected, wrong dtype exactly when dtypes were mixed; an empty tree ravels to the empty vector. The run compares flat data, promoted dtype, and both unravel results with the model on each backend over a chain of dtypes (checked exhaustively to promote to the maximum) and checks bit-exactly: concatenation in leaf order, unravel(ravel(t)) = t incl. structure, ravel(unravel(v)) = v, rejections.',
+   note=TB + 'Backend numerics (actual casts, the full promotion lattice beyond the chain) are parameters of the theorems, not modelled. The structure part of the law is C01.',
+   design='§7 C20'),
 }
 PLANNED = {}
 def main():
